@@ -21,7 +21,7 @@ DECIDING = ["C11.assignment"]
 RULE = ("set-ups = (full grid with n_b in {1,4,8,17}, n_o in {4,12,25}, n_t in {2,3,4} incl. non-equidistant radii; second molecule with three "
         "distinct principal moments: non-planar 4-8 atoms / planar (water in both atom orders, random planar) / input/H2O.gro; metric "
         "cartesian_grid True/False; outliers included or not; trajectory = continuous random placements (not grid points, some beyond the "
-        "outer boundary, long ones >2048 frames in thorough) or the grid's own pseudotrajectory, some assigned twice from the same array). "
+        "outer boundary, one long trajectory of 2200 frames per run and more in thorough) or the grid's own pseudotrajectory, some assigned twice from the same array). "
         "Every frame is judged. Non-trivial = set-up with n_b>=4 and >=20 unambiguous frames; distinct by set-up digest")
 ASSUMPTIONS = ["placements whose best and second-best candidate differ by < 1e-3 (A for radii, cosine for directions, |q.q_b| for rotations) or that lie "
                "within 1e-3 A of the outer boundary are ambiguous and skipped (counted)",
@@ -253,7 +253,10 @@ def drive(tr, pts, io, d, rng, nprng, tier, idx, cache):
         if planar and r[-1] > 4.0:
             mode = "own_pt_far_planar"
     else:
-        n = rng.choice([40, 150]) if tier == "quick" or rng.random() < 0.85 else 2200
+        n = rng.choice([40, 150]) if rng.random() < (0.85 if tier == "thorough" else 1.0) else 2200
+        if idx == 0 and cache.get("__long__"):
+            n = 2200   # one long trajectory per run also in the quick tier (frame-block boundaries at 2048)
+            cache["__long__"] = False
         dist_hi = min(outer * 1.15, 4.0) if planar and rng.random() < 0.6 else outer * 1.15
         dist = nprng.uniform(max(0.3, r[0] * 0.5), max(dist_hi, r[0] * 0.5 + 0.5), size=n)
         dirs = nprng.normal(size=(n, 3))
@@ -310,7 +313,7 @@ def run_shard(spec):
     rng = random.Random(spec["rseed"])
     nprng = np.random.default_rng(spec["rseed"])
     d = tempfile.mkdtemp(prefix="verif_c11_")
-    cache = {}
+    cache = {"__long__": spec["rseed"] % 1000 == 0}
     try:
         for it in range(spec["count"]):
             drive(tr, pts, io, d, rng, nprng, spec["tier"], it, cache)
